@@ -20,7 +20,7 @@ TRUSTED = [
     "extraction to OCaml with ExtrOcamlBasic only (no Extract Constant / Extract Inductive of ours), ocamlfind ocamlopt 4.13.1, extract/driver.ml sexp I/O",
     "harness/router (Rust) calling Url::escape/unescape, RequestUrl::parse, ParamsMap::{insert,to_query_string,FromIterator,IntoIterator} of /repo",
     "modelled, not verified: percent_encoding::{utf8_percent_encode(NON_ALPHANUMERIC), percent_decode}, url::Url::parse (only: C0/space trim, tab/newline removal, '#' and '?' splitting of a path-absolute reference), form_urlencoded::parse, String::from_utf8_lossy — each transcribed in Router/Url.v / Base/Bytes.v and compared with the real crates on every case",
-    "the nested router's params_including_parents memo is modelled (Url.params_including_parents) but not driven by the harness (it is private to the view layer); its repair is tied to the code by reading only",
+    "nested router: op5 server-renders a real <Router>/<ParentRoute path=:a>/<Route path=:b> for /<raw_a>/<raw_b> and reads use_params_map() in the leaf; only this two-level shape is driven, the theorem C15_nested_values_decoded_once covers any number of levels of the model",
 ]
 ASSUMPTIONS = [
     "Rust strings are valid UTF-8 (hypotheses all_bytes/utf8_valid of the round-trip theorems)",
@@ -77,6 +77,16 @@ def raw(rng, maxlen=6, query=False):
         else:
             out.append(rng.choice(["%26", "%3D", "%23", "%2B", "%3F", "%2F", "%00", "%20"]))
     return "".join(out)
+
+
+def seg(rng):
+    """a raw path segment that the URL parser keeps as one segment: non-empty, no '/', '?', '#',
+    backslash, tab/newline, and not a (possibly encoded) dot segment"""
+    while True:
+        s = raw(rng, 5)
+        dec = pct_decode(s.encode()).lower()
+        if s and dec not in (b".", b"..") and not any(c in s for c in "/\\?#\t\n\r"):
+            return s
 
 
 def gen_url(rng):
@@ -141,9 +151,11 @@ def generate(rng, tier):
             yield dict(case=C.norm([2, gen_url(rng)]), kind="parse-url")
         elif r < 0.80:
             yield dict(case=C.norm([3, gen_map(rng)]), kind="map-roundtrip")
-        elif r < 0.92:
+        elif r < 0.88:
             pairs = [[rng.choice(["id", "x", "y"]), raw(rng, 6)] for _ in range(rng.choice([1, 1, 2, 3]))]
             yield dict(case=C.norm([4, pairs]), kind="route-params")
+        elif r < 0.93:
+            yield dict(case=C.norm([5, [seg(rng), seg(rng)]]), kind="nested-route-params")
         else:
             s = "".join(rng.choice(TEXT_CHARS + list("/:@[]?#%")) for _ in range(rng.randint(0, 10)))
             yield dict(case=C.norm([2, s]), kind="malformed-url", compare=False)
@@ -236,6 +248,15 @@ def oracle(item, impl):
         if impl and impl[0] in (-1, -2):
             return "could not build / re-parse the map: %r" % (impl,)
         return None if impl[1] == arg else "to_query_string() + parse is not the identity on this map"
+    if op == 5:
+        if impl and impl[0] == -3:
+            return "nested route did not render exactly one leaf: %r" % (impl,)
+        # every value the application can read for a / b must be the once-decoded segment
+        # (the parent match also carries the child's params, so b may be listed more than once)
+        want = {(97,): lossy(pct_decode(bytes(arg[0]))), (98,): lossy(pct_decode(bytes(arg[1])))}
+        got = {tuple(k): vs for k, vs in impl}
+        ok = set(got) == set(want) and all(vs and all(v == want[k] for v in vs) for k, vs in got.items())
+        return None if ok else "nested route parameter is not the once-decoded raw segment"
     if op == 4:
         want = ref_group([(k, lossy(pct_decode(bytes(v)))) for k, v in arg])
         return None if impl == want else "route parameter is not the once-decoded raw segment"
@@ -262,10 +283,13 @@ def _flat(v):
 def describe(it):
     case = it["case"]
     op = case[0]
-    names = {0: "escape", 1: "unescape", 2: "RequestUrl::parse", 3: "map->query->parse", 4: "collect raw params"}
+    names = {0: "escape", 1: "unescape", 2: "RequestUrl::parse", 3: "map->query->parse", 4: "collect raw params",
+             5: "nested router /:a/:b use_params_map"}
     a = case[1]
     if op in (0, 1, 2):
         return "%s(%r)" % (names[op], C.show_bytes(a))
+    if op == 5:
+        return "%s(/%s/%s)" % (names[op], C.show_bytes(a[0]), C.show_bytes(a[1]))
     if op == 3:
         return "%s(%r)" % (names[op], [(C.show_bytes(k), [C.show_bytes(v) for v in vs]) for k, vs in a])
     return "%s(%r)" % (names.get(op), [(C.show_bytes(k), C.show_bytes(v)) for k, v in a])
